@@ -3,7 +3,7 @@ from typing import Any, Protocol
 import httpx
 
 from .auth.base import BaseAuth, set_header
-from .exceptions import HTTPError
+from .exceptions import ClientError, HTTPError, ServerError
 
 
 class HttpTransport(Protocol):
@@ -190,7 +190,7 @@ class HttpxTransport:
 
         Raises:
             httpx.HTTPError: For network errors or invalid responses.
-            HTTPError: For non-2xx HTTP responses.
+            HTTPError: For non-2xx HTTP responses (`ClientError` for 4xx, `ServerError` for 5xx).
         """
         # Prepare request arguments, excluding headers initially
         # This method handles default headers, request-specific headers, and authentication
@@ -202,7 +202,12 @@ class HttpxTransport:
 
         response = await self._client.request(method, url, **request_args)
         if response.status_code < 200 or response.status_code >= 300:
-            raise HTTPError(status_code=response.status_code, message=response.text, response=response)
+            error_class: type[HTTPError] = HTTPError
+            if 400 <= response.status_code < 500:
+                error_class = ClientError
+            elif 500 <= response.status_code < 600:
+                error_class = ServerError
+            raise error_class(status_code=response.status_code, message=response.text, response=response)
         return response
 
     async def close(self) -> None:
